@@ -94,6 +94,30 @@ def run(report, p):
         okl = isinstance(last, ast.Expr) and isinstance(last.value, ast.Yield) and isinstance(last.value.value, ast.Tuple) and len(last.value.value.elts) == 2 and norm(last.value.value.elts[0]) == top and norm(last.value.value.elts[1]) in aliases
         r1.check(okl, t, last, "the traversal does not end by yielding (top, the full children list)", construct=f"final yield {norm(last)[:60]}")
 
+    # ------------------------------------------------------------------ R2.9
+    r9 = report.rule(
+        "R2.9",
+        "traversal and consumers agree on what a directory is: the consumers take the hashes of every child that the traversal reports with is_dir=True out of a mapping that is "
+        "filled once per YIELDED folder (`mapping.pop(child path)`), so the traversal must descend into - and yield - every child it reports as a directory. A recursion that is "
+        "conditioned on more than is_dir (`not os.path.islink(path)`) reports a symbolic link to a directory as a directory without ever yielding it: the pop raises KeyError and "
+        "`create` (and verify -dh) die with an internal error on any tree that contains such a link",
+        1,
+    )
+    for t in travs:
+        g = cfg_of(t)
+        for rc in [c for c, tg in p.calls[t.qual] if t.qual in tg]:
+            r9.instance(t, rc, f"{t.name}: recursion {norm(rc)[:50]}")
+            deps = [a for tt, l in g.control_deps(g.node_for(rc), transitive=True, through_loops=False) if tt.kind == "test" for a in atomic_deps(tt.ast, l)]
+            extra = [(d, l) for d, l in deps if not (d == "is_dir" and l == "T")]
+            # the flag the children carry: isdir(join(top, name)) follows links
+            apps_ = [x for x in walk_no_nested(t.node) if isinstance(x, ast.Call) and isinstance(x.func, ast.Attribute) and x.func.attr == "append" and x.args and isinstance(x.args[0], ast.Tuple) and len(x.args[0].elts) == 2]
+            flag_follows_links = any(any(is_call(o, "isdir") for o in pr.origins(a.args[0].elts[1], t)) for a in apps_)
+            pops = [(cf_.qual, c) for cf_ in p.funcs.values() if cf_.module.name.endswith("commands") for c, tg in p.calls[cf_.qual] if isinstance(c.func, ast.Attribute) and c.func.attr == "pop" and len(c.args) == 1 and "mapping" in norm(c.func.value)]
+            if extra and flag_follows_links and pops:
+                r9.check(False, t, rc, f"a child is reported as a directory by `isdir(join(top, name))` (which follows links) but descended into only when additionally {extra}: a symbolic link to a directory is listed with is_dir=True and never yielded, and {pops[0][0].split('.')[-1]} (and {len(pops) - 1} more site(s)) pop its hashes from the per-folder mapping -> KeyError, exit 1, nothing recorded", construct="directory child reported but not yielded (symbolic link to a directory)")
+            else:
+                r9.check(True, t, rc, "")
+
     # ------------------------------------------------------------------ R2.2
     r2 = report.rule(
         "R2.2",
